@@ -104,6 +104,20 @@ def run(tier, rng, C):
         cases.append({'id': cid, 'line': G.inv_line(cid, inv, 'all'), 'show': 'node broken includes a missing class with a name of %d multi-byte characters' % (len(long_name)), 'nontrivial': True})
         meta[cid] = (inv, {'broken'})
 
+    # two node names for one file (a node file that is a symbolic link to another node file): two nodes
+    for i in range(10 if tier == 'quick' else 200):
+        inv = G.Inv()
+        inv.classes[('c.yml',)] = G.doc([], ['app'], ('m', [(S('v'), S('${_reclass_:name:short}'))]))
+        ndoc = G.doc(['c'], ['web'], ('m', [(S('j'), I(i))]))
+        inv.nodes[('web.yml',)] = ndoc
+        inv.nodes[('db.yml',)] = G.doc(['c'], ['db'], ('m', []))
+        for a in rng.sample(['web-alias', 'aaa', 'zz.alias'], rng.randint(1, 2)):
+            inv.nodes[(a + '.yml',)] = ('linkfile', 'web.yml', ndoc)
+        inv.universe.update(['c'])
+        cid = C.case_id('y', i)
+        cases.append({'id': cid, 'line': G.inv_line(cid, inv, 'all'), 'show': G.show_inv(inv, 'all'), 'nontrivial': True})
+        meta[cid] = (inv, set())
+
     # the edge sizes: no node at all (classes only), one node, one node per worker thread +- 1
     for i, nn in enumerate([0, 0, 1, 15, 16, 17, 33]):
         inv = G.Inv()
